@@ -1166,20 +1166,20 @@ func findSelectAt(t, v *Term) *Term {
 	return found
 }
 
-// patternSafe: solvers accept only function applications and variables in patterns.
+// patternSafe: solvers accept function applications and variables in patterns,
+// but no if-then-else, connectives or predicates.
 func patternSafe(t *Term) bool {
-	switch t.Op {
-	case "sym", "bound":
-		return true
-	case "select":
-		return patternSafe(t.Args[0]) && patternSafe(t.Args[1])
-	case "root", "sub", "idx", "nilref", "bv", "int":
-		for _, a := range t.Args {
-			if !patternSafe(a) {
-				return false
-			}
-		}
-		return true
+	if t.S == BoolS {
+		return false
 	}
-	return false
+	switch t.Op {
+	case "ite", "forall", "exists", "store", "constarr":
+		return false
+	}
+	for _, a := range t.Args {
+		if !patternSafe(a) {
+			return false
+		}
+	}
+	return true
 }
